@@ -71,7 +71,7 @@ CHECKS = {
    note="trusted: the ~40-line restatement of how the client library applies a RegistrationResponse around the real ClientTransports; the request/configuration space is sampled; the station never verifies the response signature itself (reported, not judged: no sentence of the property licenses an oracle for it)",
    tech=TECH + " (three-party agreement registrar -> faulty channel -> stations, seeded search, statistical clause with stated miss probability)"),
  "C13": dict(cat="exploration", ref="5 C13",
-   text="all schedules with at most 2 preemptions at lock operations (and at the entry of the selector's Select) for 13 small request/reload scenarios (valid, missing and malformed subnet files; servable and unservable requests) are enumerated, larger ones sampled, on the real RegProcessor with emulated RWMutex semantics (writer preference); deadlock is decided from the wait-for graph, old-or-new-in-full from the returned addresses; afterwards a further request and reload must be served, a generation that only the old file has must be gone, and a panic in a request or reload task is a violation; a generation whose IPv6 subnets exist only in the second file (a dual-stack request of it either fails or is served from the new set in full)",
+   text="all schedules with at most 2 preemptions at lock operations (and at the entry of the selector's Select) for 13 small request/reload scenarios (valid, missing and malformed subnet files; servable and unservable requests) are enumerated, larger ones sampled, on the real RegProcessor with emulated RWMutex semantics (writer preference); deadlock is decided from the wait-for graph, old-or-new-in-full from the returned addresses; afterwards a further request and reload must be served, a generation that only the old file has must be gone, and a panic in a request or reload task is a violation; a generation whose IPv6 subnets exist only in the second file (a dual-stack request of it either fails or is served from the new set in full); additional population (pkg/regserver/apiregserver): bidirectional / unidirectional API requests against ClientConf reloads (NewClientConf, the other half of the registrar's SIGHUP) as tasks over the server's emulated RWMutex, bounded-preemption enumeration of five small scenarios + seeded search; all must complete, a reload must be in force afterwards",
    note="trusted: the lock emulation's fidelity to sync.RWMutex; code between two lock operations runs atomically (unlocked shared accesses are not interleaved)",
    tech=TECH + " (lock-level cooperative scheduler, bounded-preemption schedule enumeration + seeded search)"),
 }
